@@ -102,6 +102,18 @@ poke(struct netbuf_write * W)
 {
 	struct writebuf * WB;
 
+	/*
+	 * Discard empty buffers (from zero-length writes): there is nothing
+	 * to send, and network_write() must not be given a length of zero.
+	 * This is safe since no buffer space is reserved when we are called.
+	 */
+	while (((WB = STAILQ_FIRST(&W->buffers)) != NULL) &&
+	    (WB->datalen == 0)) {
+		STAILQ_REMOVE_HEAD(&W->buffers, entries);
+		free(WB->buf);
+		free(WB);
+	}
+
 	/* If a write is in progress or we have nothing to write, return. */
 	if ((W->write_cookie != NULL) || (STAILQ_EMPTY(&W->buffers)))
 		return (0);
